@@ -209,3 +209,42 @@ pub fn verify_replay_in_fresh_process(prop: &str, path: &str) -> bool {
         .unwrap_or_else(|e| harness_error(&format!("spawn replay: {e}")));
     st.code() == Some(1)
 }
+
+// ---------------------------------------------------------------- build-profile stages
+
+/// True in the `devsim` build of the simulators (library at opt-level 0, debug assertions on):
+/// the second stage of the sim_io checks. The stage is a property of the binary, not a flag.
+pub fn debug_stage() -> bool {
+    cfg!(debug_assertions)
+}
+
+pub fn profile_name() -> &'static str {
+    if debug_stage() {
+        "devsim"
+    } else {
+        "release"
+    }
+}
+
+/// Run domain of a property: the second stage explores other cases than the first for one VERIF_SEED.
+pub fn stage_domain(prop: &str) -> u64 {
+    if debug_stage() {
+        rng::domain(&format!("{prop}/debug-profile"))
+    } else {
+        rng::domain(prop)
+    }
+}
+
+pub fn replay_path(prop: &str, base_seed: u64, idx: u64) -> String {
+    format!("{}/replays/{prop}-{}{}-{}.json", verif_dir(), if debug_stage() { "debugprofile-" } else { "" }, base_seed, idx)
+}
+
+/// Where a stage writes its evidence: stage 1 writes evidence/<id>.json, stage 2 a file the
+/// driver merges into it under coverage.debug_profile_stage.
+pub fn evidence_path(prop: &str) -> String {
+    if debug_stage() {
+        format!("{}/sim/target/{prop}-debug-stage.json", verif_dir())
+    } else {
+        format!("{}/evidence/{prop}.json", verif_dir())
+    }
+}
